@@ -784,4 +784,14 @@ def quantity_to(st, q, unit, equivalencies=None):
         if q.unit.dims == L and unit.dims == T or q.unit.dims == T and unit.dims == L:
             k = arith('/', arith('/', Sc(C_SI), q.unit.scale), unit.scale)
             return Quantity(elementwise(st, lambda x: arith('/', k, x), q.value), unit)
+    if isinstance(equivalencies, tuple) and equivalencies and equivalencies[0] == 'spectral_density':
+        # F = nu F_nu  (per-frequency density <-> flux): the frequencies run along the LAST axis
+        nu = equivalencies[1]
+        FNU, FL = {'kg': 1, 's': -2}, {'kg': 1, 's': -3}
+        if isinstance(nu, Quantity) and q.unit.dims == FNU and unit.dims == FL:
+            k = arith('/', arith('*', q.unit.scale, nu.unit.scale), unit.scale)
+            nshape, nfn, _ = info(st, nu.value)
+            shape, fn, kind = info(st, q.value)
+            same_dim(st, shape[-1], nshape[0])
+            return Quantity(PureArr(shape, lambda idx: arith('*', arith('*', fn(idx), nfn((idx[-1],))), k), 'real'), unit)
     raise Raised('UnitConversionError', '%s -> %s' % (q.unit.name, unit.name))
